@@ -36,7 +36,7 @@ LEVEL_TEXT = (
     "real threads; known finding). C. tee_stdout / the $() branch of iterraw / get_formatted_lines: C06_C_independent_partial "
     "(whole-line fragmentations of the same bytes give the same lines/.out/.raw_out), C06_C_plain_exact, C06_C_stdout_path ($() is a "
     "function of the payload alone for all chunkings and schedules), C06_C_stdout_oneline, C06_raw_out; the unrestricted statement "
-    "is false: C06_C_cex_crlf / _multibyte / _escape / _oneline / _crcrlf / _stdout_vt (known findings). C06_rtn, C06_rtn_alias_table. "
+    "is false: C06_C_cex_crlf / _multibyte / _escape / _oneline / _crcrlf / _cr_onefragment / _stdout_vt (known findings). C06_rtn, C06_rtn_alias_table. "
     "Tie: every model function against the real class / builtin on generated inputs, and whole pipelines (1-4 stages, processes and "
     "threaded / unthreaded callable aliases, $() / !() .out .raw_out .rtn iteration / @$(), payloads empty to 4 pipe buffers around "
     "1024 and 65536, text and binary, writer chunking / delays / exit timing, seeded delays injected at the reader, PopenThread, "
@@ -60,6 +60,8 @@ K_PARTIAL = "abandoned-iteration-loses-lines-already-read"
 K_ORDER = "alias-stdout-write-overtaken-by-inner-command"
 K_DUP = "membuf-position-rewound-duplicates-output"
 K_STDERR = "alias-stage-closes-the-real-stderr-and-later-alias-threads-die"
+K_GLOBAL = "global-sys-stdout-redirect-restored-by-another-alias-thread"
+K_ONEFRAG = "single-fragment-output-with-inner-cr-loses-its-final-newline"
 
 # ======================================================================================= inside the forked worker
 _W = {}  # worker state
@@ -183,12 +185,24 @@ def _install(per):
 
     L.CommandPipeline.iterraw = iterraw
 
+    # which pipeline is the program's own one (an alias stage may run inner pipelines, which also become XSH.lastcmd)
+    orig_init = L.CommandPipeline.__init__
+
+    @functools.wraps(orig_init)
+    def init(self, specs):
+        if threading.current_thread() is threading.main_thread():
+            _W.setdefault("cps", []).append(self)
+        return orig_init(self, specs)
+
+    L.CommandPipeline.__init__ = init
+
     # ProcProxyThread.run: delays + a record of exceptions that escape it (the thread dies without a return code)
     orig_run = X.ProcProxyThread.run
 
     @functools.wraps(orig_run)
     def run(self):
         per.nap("proxy.run:before")
+        per.nap(f"proxy.run:before:{self.args[0] if self.args else ''}")
         try:
             return orig_run(self)
         except BaseException as e:  # noqa: BLE001
@@ -265,7 +279,7 @@ def _session():
     env["XONSH_ENCODING"] = "utf-8"
     env["XONSH_ENCODING_ERRORS"] = "surrogateescape"
     env["XONSH_SUBPROC_OUTPUT_FORMAT"] = "stream_lines"
-    _W.update(execer=execer, XSH=XSH, X=X, per=_Perturb(), glb={"__name__": "xv"}, stages={}, rec=[], errs_real=sys.stderr)
+    _W.update(execer=execer, XSH=XSH, X=X, per=_Perturb(), glb={"__name__": "xv"}, stages={}, rec=[], errs_real=sys.stderr, out_real=sys.stdout)
     _install(_W["per"])
     with open(os.path.join(root, "c06-writer.py"), "w") as f:
         f.write(WRITER_SRC)
@@ -302,6 +316,14 @@ def _define_aliases(XSH):
                     stdout.flush()
             elif mode == "print":
                 print(piece.decode("utf-8", "surrogateescape"), end="")
+            elif mode == "inner":
+                # the stage produces this piece by running an uncaptured inner command
+                ip = os.path.join(str(common.scratch_root()), f"c06-inner-{os.getpid()}-{st.get('idx')}.bin")
+                with open(ip, "wb") as f:
+                    f.write(piece)
+                # (a command xonsh predicts unthreadable — plain `cat` — is started on the interpreter's own fd 1 inside an alias;
+                # that documented limitation is not this property's subject: the inner command is a threadable one)
+                _W["execer"].exec(f'sh -c "cat {ip}"\n', glbs=dict(_W["glb"]), locs=None, filename="<c06-inner>")
             else:
                 raise ValueError(mode)
 
@@ -319,10 +341,21 @@ def _define_aliases(XSH):
             return (None, None)
         if kind == "exit":
             raise SystemExit(val)
+        if kind == "exitnone":
+            raise SystemExit
+        if kind == "exitstr":
+            raise SystemExit("bye")
+        if kind == "exitempty":
+            raise SystemExit("")
         if kind == "raised":
             raise RuntimeError("xv: stage told to raise")
         if kind == "other":
-            return 0.0 if False else None
+
+            class Quiet:
+                def __str__(self):
+                    return ""
+
+            return Quiet()
         raise ValueError(kind)
 
     def src(args, stdin=None, stdout=None, stderr=None):
@@ -470,6 +503,10 @@ def _run_case(case):
     root = str(common.scratch_root())
     _W["case"] = case["id"]
     _diag(f"case {case['id']} start")
+    # every program starts from the interpreter's canonical streams (an earlier pipeline may have left the dispatcher in place)
+    if sys.stdout is not _W["out_real"] or sys.stderr is not _W["errs_real"]:
+        _diag(f"case {case['id']} sys-streams-were-left-swapped")
+        sys.stdout, sys.stderr = _W["out_real"], _W["errs_real"]
     exp = case["exp"]
     stages = case["stages"]
     _W["stages"] = {i: dict(st, idx=i) for i, st in enumerate(stages)}
@@ -501,11 +538,16 @@ def _run_case(case):
     obs = {"pipe": pipe, "form": form, "views": {}, "exc": None}
     t0 = time.time()
     XSH.lastcmd = None
+    _W["cps"] = []
+
+    def outer():
+        return _W["cps"][0] if _W["cps"] else None
+
     try:
         if form == "stdout":
             execer.exec(f"r = $({pipe})\n", glbs=glb, locs=None, filename="<c06>")
             obs["views"]["stdout"] = _enc_text(glb.get("r"), exp)
-            lc = XSH.lastcmd
+            lc = outer()
             obs["rtn"] = None if lc is None else lc.returncode
         elif form == "inject":
             execer.exec(f"xrec @$({pipe})\n", glbs=glb, locs=None, filename="<c06>")
@@ -551,7 +593,9 @@ def _run_case(case):
             obs["pipestatus"] = list(p.pipestatus)
             obs["frags"] = [[f.hex() for f in call] for call in getattr(p, "_xv_frags", [])]
             glb.pop("_keep", None)
-        lc = XSH.lastcmd
+        lc = outer()
+        if form == "inject" and len(_W["cps"]) > 1:
+            lc = _W["cps"][0]  # `xrec @$(…)`: the injected pipeline is built and run first
         if lc is not None:
             obs["classes"] = [type(x).__name__ for x in lc.procs]
             if form in ("stdout", "inject"):
@@ -670,12 +714,13 @@ def gen_chunks(rng, size):
     return out
 
 
-RET_FORMS = [["int", 0], ["int", 0], ["int", 3], ["int", 1], ["none", 0], ["tuple", 5], ["tuple2", 0], ["exit", 4], ["exit", 0]]
+RET_FORMS = [["int", 0], ["int", 0], ["int", 3], ["int", 1], ["none", 0], ["tuple", 5], ["tuple2", 0], ["exit", 4], ["exit", 0], ["exitnone", 0], ["exitstr", 1],
+             ["exitempty", 0], ["other", 0], ["raised", 1]]
 
 
 def ret_rc(ret):
     kind, val = ret
-    return {"int": val, "none": 0, "tuple": val, "tuple2": 0, "exit": val, "str": 0, "tuplestr": val, "raised": 1, "other": 0}[kind]
+    return {"int": val, "none": 0, "tuple": val, "tuple2": 0, "exit": val, "str": 0, "tuplestr": val, "raised": 1, "other": 0, "exitnone": 0, "exitstr": 1, "exitempty": 0}[kind]
 
 
 def ret_sexp(ret):
@@ -683,7 +728,8 @@ def ret_sexp(ret):
     return {
         "int": [Sym("int"), val], "none": Sym("none"), "tuple": [Sym("tuple"), [Sym("some"), val]], "tuple2": [Sym("tuple"), None],
         "exit": [Sym("exit"), [Sym("some"), val], True], "str": Sym("str"), "tuplestr": [Sym("tuple"), [Sym("some"), val]],
-        "raised": Sym("raised"), "other": Sym("other"),
+        "raised": Sym("raised"), "other": Sym("other"), "exitnone": [Sym("exit"), None, False], "exitstr": [Sym("exit"), None, True],
+        "exitempty": [Sym("exit"), None, False],
     }[kind]
 
 
@@ -702,7 +748,11 @@ def gen_stage(rng, role, kind, pkind, size, last, form):
         st["needs_file"] = True
     if kind in ("alias", "ualias"):
         st["chunks"] = gen_chunks(rng, size)
-        st["mode"] = rng.choice(["buffer", "buffer", "text", "print"]) if pkind in TEXTY else "buffer"
+        st["mode"] = rng.choice(["buffer", "buffer", "text", "print", "inner"]) if pkind in TEXTY else rng.choice(["buffer", "buffer", "buffer", "inner"])
+        if st["mode"] == "inner":
+            st["chunks"] = st["chunks"][:3]
+            if kind == "ualias":
+                st["mode"] = "buffer"  # inner commands of a main-thread alias write to the interpreter's stdout by design
         if kind == "ualias" and st["mode"] == "print":
             st["mode"] = "text"  # print() in a main-thread alias goes to the interpreter's sys.stdout, which xonsh does not redirect
         st["flush"] = rng.random() < 0.7
@@ -757,6 +807,9 @@ def gen_case(rng, cid, big_ok=True, many_aliases=False, forms=("stdout", "object
         if kind == "alias":
             aliases += 1
         stages.append(gen_stage(rng, role, kind, pkind, len(payload), last, form))
+        if many_aliases and kind == "alias" and rng.random() < 0.3:
+            stages[-1]["mode"] = "inner"
+            stages[-1]["chunks"] = stages[-1]["chunks"][:3]
     exp = payload
     if n >= 2 and rng.random() < 0.06:
         k = rng.choice([0, 1, 1024, 4096, len(payload) // 2, len(payload)])
@@ -768,8 +821,21 @@ def gen_case(rng, cid, big_ok=True, many_aliases=False, forms=("stdout", "object
         if "rtn" not in views:
             views.append("rtn")
         case["views"] = views
+    alias_idx = [i for i, st in enumerate(stages) if st["kind"] == "alias"]
+    if len(alias_idx) >= 2:
+        if any(stages[i].get("mode") == "inner" for i in alias_idx):
+            for i in alias_idx:
+                if stages[i].get("mode") == "print":
+                    stages[i]["mode"] = "text"  # (keeps the known print() leak apart from anything an inner command does)
+        if rng.random() < 0.7:
+            # the order in which the alias threads enter / leave their redirect blocks is part of the schedule: stagger their starts
+            case["special"] = {f"proxy.run:before:{i}": rng.choice([0.0, 0.03, 0.15, 0.3]) for i in alias_idx}
     if perturb and rng.random() < 0.6:
         case["perturb"] = [rng.getrandbits(30), rng.choice([0.1, 0.3, 0.6]), rng.choice([0.0005, 0.003, 0.02, 0.12])]
+        if len(payload) > 20000:
+            # hundreds of 1024-byte chunks pass every delay point: keep the injected delays short so that a slow run is not taken for a hang
+            case["perturb"][1] = min(case["perturb"][1], 0.3)
+            case["perturb"][2] = min(case["perturb"][2], 0.003)
     return case
 
 
@@ -902,9 +968,12 @@ def judge(ctx, stream, case, obs):
         any(s["kind"] == "inner" for s in case["stages"])
     )
     died = [l for l in dl if l.startswith("proxy-run-escaped ValueError: I/O operation on closed file")]
+    # an alias thread that found its stdin fd already closed (by _close_prev_procs) dies outside its try block
+    ebadf = [l for l in dl if l.startswith("proxy-run-escaped OSError: [Errno 9] Bad file descriptor")]
     if obs == "hang" or (isinstance(obs, dict) and obs.get("std_closed")):
         closed = any("real-std-stream-closed" in l for l in dl) or bool(died)
-        key = K_STDERR if (closed or died) and any(s["kind"] in ("alias", "inner", "ualias") for s in case["stages"]) else None
+        has_alias = any(s["kind"] in ("alias", "inner", "ualias") for s in case["stages"])
+        key = K_STDERR if (closed or died) and has_alias else (K_STDIN if ebadf and has_alias and obs == "hang" else None)
         hangtxt = ""
         hp = common.scratch_root() / f"c06-hang-{case['id']}.txt"
         if obs == "hang" and hp.exists():
@@ -925,7 +994,8 @@ def judge(ctx, stream, case, obs):
     if case.get("perturb"):
         ctx.count("perturbed")
     failures = []  # (why, observed-detail, key)
-    stdin_fail = any("stdin-read-failed" in (n or "") for ns in (obs.get("notes") or {}).values() for n in (ns or []))
+    stdin_fail = any("stdin-read-failed" in (n or "") for ns in (obs.get("notes") or {}).values() for n in (ns or [])) or bool(ebadf)
+    early_exit = case["stages"][-1]["kind"] == "head"  # upstream stages may meet EPIPE / SIGPIPE and say so on stderr
     last = case["stages"][-1]
 
     def fail(why, detail, key=None):
@@ -934,24 +1004,37 @@ def judge(ctx, stream, case, obs):
     if obs.get("exc"):
         fail("the capture raised", {"exception": obs["exc"], "diag": dl[-4:]}, K_STDERR if died else None)
     # ---- terminal
+    alias_threads = [s for s in case["stages"] if s["kind"] in ("alias", "inner")]
+    leak_key = None
     if obs.get("term_out"):
-        fail("captured data (or anything else) reached the harness's terminal stdout", {"terminal_stdout": obs["term_out"][:300]})
-    want_err = "".join(s.get("err", "") for s in case["stages"][:-1]) if form == "object" else "".join(s.get("err", "") for s in case["stages"])
+        # two alias threads: redirect_stdout(STDOUT_DISPATCHER) is a process-global swap; the thread that leaves first puts the
+        # REAL sys.stdout back while the other one still print()s
+        if len(alias_threads) >= 2 and any(s.get("mode") == "print" for s in alias_threads) and not any(s.get("mode") == "inner" for s in alias_threads) and obs["term_out"].strip() and obs["term_out"] in exp.decode("utf-8", "surrogateescape"):
+            leak_key = K_GLOBAL
+        fail("captured data (or anything else) reached the harness's terminal stdout", {"terminal_stdout": obs["term_out"][:300]}, leak_key)
+    want_err = "".join(s.get("err", "") for s in case["stages"][:-1]) if form in ("object", "partial") else "".join(s.get("err", "") for s in case["stages"])
     terr = obs.get("term_err", "")
-    if sorted(terr) != sorted(want_err) and not (stdin_fail or died):
-        fail("the terminal stderr holds something else than the stages' stderr text", {"terminal_stderr": terr[:300], "expected": want_err})
+    raised = any(s.get("ret", [""])[0] == "raised" for s in case["stages"])
+    if sorted(terr) != sorted(want_err) and not (stdin_fail or died or raised or early_exit):
+        extra = terr
+        for s_ in case["stages"]:
+            if s_.get("err") and s_["err"] in extra and s_ is not last:
+                extra = extra.replace(s_["err"], "", 1)
+        ek = K_GLOBAL if len(alias_threads) >= 2 and last["kind"] == "alias" and last.get("err") and extra == last["err"] else None
+        fail("the terminal stderr holds something else than the stages' stderr text", {"terminal_stderr": terr[:300], "expected": want_err}, ek)
+        leak_key = leak_key or ek
     # ---- return code
     m_rc, _m_ps = ctx.driver.call("c06.rtn", [stage_sexp(s) for s in case["stages"]])
     if form != "inject" and obs.get("exc") is None:
         if obs.get("rtn") != m_rc:
-            known = K_STDIN if stdin_fail and obs.get("rtn") == 97 else (K_STDERR if died else None)
+            known = K_STDIN if stdin_fail and obs.get("rtn") in (97, None) else (K_STDERR if died else None)
             if known is None:
                 ctx.disagree(stream, csum, {"rtn": obs.get("rtn")}, {"rtn": m_rc})
             fail("the reported return code is not the last stage's", {"rtn": obs.get("rtn"), "last_stage": m_rc, "pipestatus": obs.get("pipestatus")}, known)
     views = obs.get("views") or {}
     frag_calls = [[bytes.fromhex(f) for f in call] for call in obs.get("frags") or []]
     frags = [f for call in frag_calls for f in call]
-    lost_known = K_STDIN if stdin_fail else (K_STDERR if died else None)
+    lost_known = K_STDIN if stdin_fail else (K_STDERR if died else leak_key)
     if form == "stdout":
         got = dec_text(views.get("stdout"), exp)
         if got is None:
@@ -1010,8 +1093,11 @@ def judge(ctx, stream, case, obs):
                 if not faithful and key_bytes is None:
                     ctx.disagree(stream, csum, {name: (got or "")[:200]}, {name: "".join(chr(c) for c in m_out[:200])})
                 if got is None or not ctx.driver.call("c06.spec", lean_bytes(exp), None, codes(got), None, None)[1]:
+                    tk = text_key(faithful)
+                    if tk is None and faithful and len(frags) == 1 and b"\r" in frags[0][:-1] and ctx.driver.call("c06.spec", lean_bytes(exp), None, codes(got + "\n"), None, None)[1]:
+                        tk = K_ONEFRAG  # 'one line' = one FRAGMENT: the newline goes although the text has CR-separated lines
                     fail(f".{name} is not the text the final stage wrote (modulo CR/CRLF->LF and escape stripping)",
-                         {"len": len(got or ""), "head": (got or "")[:120], "tail": (got or "")[-80:], "expected_len": len(exp), "cut": cut}, text_key(faithful))
+                         {"len": len(got or ""), "head": (got or "")[:120], "tail": (got or "")[-80:], "expected_len": len(exp), "cut": cut}, tk)
         if "iter" in views:
             got = [dec_text(x, exp) for x in views["iter"]]
             faithful = [codes(x) for x in got] == m_lines
@@ -1028,7 +1114,7 @@ def judge(ctx, stream, case, obs):
         if "err" in views and obs.get("exc") is None:
             got = dec_text(views["err"], exp) or ""
             if last.get("err", "") != got and not stdin_fail:
-                fail(".err is not what the final stage wrote to stderr", {"err": got[:100], "expected": last.get("err", "")})
+                fail(".err is not what the final stage wrote to stderr", {"err": got[:100], "expected": last.get("err", "")}, leak_key)
     for why, detail, key in failures:
         ctx.count("spec-failure/" + (key or "NEW"))
         ctx.spec_failure(csum | {"stream": stream}, detail | {"pipe": obs.get("pipe"), "proc_classes": obs.get("classes")}, why, key)
@@ -1431,6 +1517,10 @@ def d_crcrlf(cid):
     return _base(cid, "object", b"a\r\r\nb\n", [{"role": "src", "kind": "ext_sh", "rc": 0, "needs_file": True, "hint": "thread"}], views=["out", "raw_out", "rtn"], directed=["crcrlf", {}])
 
 
+def d_onefrag(cid):
+    return _base(cid, "object", b"a\rb\n", [{"role": "src", "kind": "ext_sh", "rc": 0, "needs_file": True, "hint": "thread"}], views=["out", "raw_out", "rtn"], directed=["onefrag", {}])
+
+
 def d_vt(cid):
     return _base(cid, "stdout", b"a\x0bb\n", [{"role": "src", "kind": "ext_sh", "rc": 0, "needs_file": True}], directed=["vt", {}])
 
@@ -1446,10 +1536,17 @@ def d_stderr(cid):
                  views=["out", "rtn"], special={"parse_proxy_return:before": 0.3}, dump_after=4, directed=["stderr", {}])
 
 
-DIRECTED = {"late_stdin": d_late_stdin, "partial": d_partial, "inner": d_inner, "fragcut": d_fragcut, "crcrlf": d_crcrlf, "vt": d_vt, "dup": d_dup, "stderr": d_stderr}
+def d_global(cid):
+    payload = b"".join(b"line %d\n" % i for i in range(40))
+    return _base(cid, "object", payload, [{"role": "src", "kind": "alias", "mode": "buffer", "ret": ["int", 0], "chunks": [[100, 0], [100, 0.5]]},
+                                         {"role": "fil", "kind": "alias", "mode": "print", "ret": ["int", 0], "read": "all"}],
+                 views=["out", "rtn"], special={"proxy.run:before:1": 0.25}, directed=["global", {}])
+
+
+DIRECTED = {"onefrag": d_onefrag, "global": d_global, "late_stdin": d_late_stdin, "partial": d_partial, "inner": d_inner, "fragcut": d_fragcut, "crcrlf": d_crcrlf, "vt": d_vt, "dup": d_dup, "stderr": d_stderr}
 WITNESS = {
     K_STDIN: ["late_stdin", {}], K_PARTIAL: ["partial", {}], K_ORDER: ["inner", {}], K_FRAG: ["fragcut", {"which": "crlf", "stage": "alias"}],
-    K_CRCRLF: ["crcrlf", {}], K_VT: ["vt", {}], K_DUP: ["dup", {}], K_STDERR: ["stderr", {}],
+    K_ONEFRAG: ["onefrag", {}], K_GLOBAL: ["global", {}], K_CRCRLF: ["crcrlf", {}], K_VT: ["vt", {}], K_DUP: ["dup", {}], K_STDERR: ["stderr", {}],
 }
 
 
@@ -1543,6 +1640,11 @@ def run(ctx):
         "$XONSH_ENCODING=utf-8, $XONSH_ENCODING_ERRORS=surrogateescape, $XONSH_SUBPROC_OUTPUT_FORMAT=stream_lines, $THREAD_SUBPROCS=True, $XONSH_CAPTURE_ALWAYS=False (the defaults)",
         "general streams use at most one callable-alias stage per pipeline (two concurrent alias threads can close the real stderr: known finding); the alias-pipelines stream lifts that",
     ]
+    ctx.trusted_base += [
+        "the statements in lean/XonshVerif/Props/C06.lean and the hand-written models in Model/Capture.lean (tied to the code by correspondence, not translated)",
+        "xv/props/c06.py: generators, the forked worker, run-time wrappers that inject delays / record fragments (no source edits), the Lean spec oracle (Shape.spec*)",
+        "CPython queue.Queue / io.BytesIO / GIL atomicity of single method calls; the OS's pipe semantics; liveness observed with timeouts only",
+    ]
     ctx.explanation = (
         "Models in lean/XonshVerif/Model/Capture.lean (QReader, MemBuf, Shape, Rtn), theorems in Props/C06.lean. Tie: every model "
         "function against the real builtin / class (model-functions, queue-reader-ops, populate-fd-queue, membuf-ops) and whole "
@@ -1555,11 +1657,11 @@ def run(ctx):
     stream_populate(ctx, ctx.n(12, 120))
     stream_membuf(ctx, ctx.n(200, 3000))
     ctx.stream_rule("pipelines", PIPE_RULE)
-    stream_pipelines(ctx, ctx.n(300, 5000), big_ok=False)
+    stream_pipelines(ctx, ctx.n(190, 2400), big_ok=False)
     ctx.stream_rule("big-payloads", "as `pipelines`, payload sizes 65535..262145 (one to four pipe buffers, each boundary -1/0/+1) more often")
-    stream_pipelines(ctx, ctx.n(24, 400), name="big-payloads", big_ok=True, forms=("stdout", "object"), kinds=["plain", "binary", "crlf", "utf8", "longline"])
+    stream_pipelines(ctx, ctx.n(16, 220), name="big-payloads", big_ok=True, forms=("stdout", "object"), kinds=["plain", "binary", "crlf", "utf8", "longline"])
     ctx.stream_rule("alias-pipelines", "as `pipelines`, any number of callable-alias stages per pipeline (threads of several aliases run concurrently)")
-    stream_pipelines(ctx, ctx.n(60, 1000), name="alias-pipelines", big_ok=False, many_aliases=True)
+    stream_pipelines(ctx, ctx.n(60, 600), name="alias-pipelines", big_ok=False, many_aliases=True)
 
 
 def search(ctx, reason):
